@@ -385,7 +385,7 @@ func (c *c11ctx) ruleR2() {
 			}
 			for _, pred := range call.Block().Preds {
 				_, ci := an.IfCond(pred)
-				if ci != nil && ci.Op == token.NEQ && an.IsNilConst(ci.Y) && pred.Succs[0] == call.Block() {
+				if ci.Edge(token.NEQ) >= 0 && an.IsNilConst(ci.Y) && pred.Succs[ci.Edge(token.NEQ)] == call.Block() {
 					found = true
 				}
 			}
@@ -527,10 +527,11 @@ func (c *c11ctx) ruleR4() {
 			}
 			for d, child := call.Block().Idom(), call.Block(); d != nil; d, child = d.Idom(), d {
 				_, ci := an.IfCond(d)
-				if ci == nil || !an.IsNilConst(ci.Y) || ci.Op != token.NEQ {
+				e := ci.Edge(token.NEQ)
+				if e < 0 || !an.IsNilConst(ci.Y) {
 					continue
 				}
-				if strings.Contains(argDesc(ci.X), "discard") && (d.Succs[0] == child || d.Succs[0].Dominates(child)) {
+				if strings.Contains(argDesc(ci.X), "discard") && (d.Succs[e] == child || d.Succs[e].Dominates(child)) {
 					okClose = true
 				}
 			}
@@ -643,7 +644,7 @@ func (c *c11ctx) ruleR5() {
 		guarded := false
 		for _, pred := range ins.Block().Preds {
 			_, ci := an.IfCond(pred)
-			if ci != nil && ci.Op == token.NEQ && an.IsNilConst(ci.Y) && pred.Succs[0] == ins.Block() {
+			if ci.Edge(token.NEQ) >= 0 && an.IsNilConst(ci.Y) && pred.Succs[ci.Edge(token.NEQ)] == ins.Block() {
 				guarded = true
 			}
 		}
@@ -661,12 +662,12 @@ func (c *c11ctx) ruleR5() {
 	})
 	for _, b := range an.Blocks(wait) {
 		_, ci := an.IfCond(b)
-		if ci == nil || ci.Op != token.EQL {
+		if ci.Edge(token.EQL) < 0 {
 			continue
 		}
 		if k, ok := an.ConstInt(ci.Y); ok && k == 1 && strings.Contains(argDesc(ci.X), "concurrency") {
-			// true successor produces io.ErrNoProgress
-			for _, ins := range b.Succs[0].Instrs {
+			// the concurrency == 1 successor produces io.ErrNoProgress
+			for _, ins := range b.Succs[ci.Edge(token.EQL)].Instrs {
 				if u, ok := ins.(*ssa.UnOp); ok {
 					if g, ok := u.X.(*ssa.Global); ok && g.Name() == "ErrNoProgress" {
 						okAlone = true
